@@ -61,6 +61,13 @@ def draw_lot(g: np.random.Generator, i):
             b_max_y = b_min * float(g.uniform(1.0, 4.0))
         if b_min < max(length, width) / 16.5 or b_max_x < b_min or b_max_y < b_min:
             continue
+        if i % 5 == 4:
+            # narrow windows: b_max barely above b_min, so that often NO integer count fits on a side (the tool then produces an
+            # empty list, or no list at all) - whatever fields it does produce are still judged
+            b_max_x = b_min * float(g.uniform(1.0, 1.12))
+            b_max_y = b_min * float(g.uniform(1.0, 1.12))
+            ok = all(window_ok(L, b_min, bm, 3) for L in (length, width) for bm in (b_max_x, b_max_y))
+            return {"length": length, "width": width, "b_min": b_min, "b_max_x": b_max_x, "b_max_y": b_max_y, "narrow": not ok}
         # non-degenerate: each direction admits an integer count in the window and >= 3 rows at max spacing
         if not (window_ok(length, b_min, b_max_x, 3) and window_ok(width, b_min, b_max_y, 3)):
             continue
@@ -187,8 +194,13 @@ def run_shard(spec):
             try:
                 lists = get_lists(method, lot)
             except Exception as e:  # noqa: BLE001
+                if lot.get("narrow"):
+                    res["narrow_window_exceptions"] = res.get("narrow_window_exceptions", 0) + 1  # degenerate input: nothing to judge
+                    continue
                 res["viol"].append({"mechanism": f"{method}:exception:{type(e).__name__}", "message": str(e)[:200], "lot": lot, "method": method})
                 continue
+            if lot.get("narrow"):
+                res["narrow_window_lots_judged"] = res.get("narrow_window_lots_judged", 0) + 1
             v, nf, big = judge_lot(method, lot, lists)
             res["fields"] += nf
             res["per_method"][method] = res["per_method"].get(method, 0) + nf
@@ -213,7 +225,8 @@ def check(tier, seed):
     rep.rule = (
         "lot = (length, width, b_min, b_max_x, b_max_y) with length <,=,> width, integer / one-decimal / real sides, exact-divisor, "
         "integer and real spacing windows, non-degenerate (each direction admits an integer count in [b_min,b_max] and >= 3 rows at "
-        "max spacing); every field of every list of NEARSQUARE, RECTANGLE, BIRECTANGLE, BIZONEDRECTANGLE designs is judged. "
+        "max spacing) except every 5th lot, which has a narrow window b_max <= 1.12 b_min where often no integer count fits (fields the tool "
+        "still produces are judged, exceptions there are counted); every field of every list of NEARSQUARE, RECTANGLE, BIRECTANGLE, BIZONEDRECTANGLE designs is judged. "
         "non-trivial = (method, lot) whose lists hold >= 3 fields and >= 1 field with >= 4 boreholes; distinct by rounded inputs."
     )
     orient = {"lt": 0, "eq": 0, "gt": 0}
@@ -231,6 +244,8 @@ def check(tier, seed):
             rep.sample(s)
         for m, c in r["per_method"].items():
             rep.count("fields_" + m, c)
+        rep.count("narrow_window_lot_methods_judged", r.get("narrow_window_lots_judged", 0))
+        rep.count("narrow_window_exceptions_not_judged", r.get("narrow_window_exceptions", 0))
         for v in r["viol"]:
             rep.violate(v["mechanism"], f"{v['method']} lot {v['lot']}: {v['message']}", {"lot": v["lot"], "method": v["method"], "list": v.get("list"), "field": v.get("field")})
     rep.extra["lots_by_orientation"] = orient
